@@ -20,7 +20,7 @@ PROPS["C11"] = dict(
                  "from the rational LP (observation reported separately, it concerns the LP-modification property)"],
     min_nontrivial=dict(quick=3000, thorough=100000),
     stages=[dict(name="lu", target="c11", flavour="plain",
-                 quick=dict(cases=2500, maxsize=100), thorough=dict(cases=20000, maxsize=100)),
+                 quick=dict(cases=6000, maxsize=100), thorough=dict(cases=20000, maxsize=100)),
             dict(name="basis", target="c11s", flavour="plain",
-                 quick=dict(cases=1200, maxsize=100), thorough=dict(cases=8000, maxsize=100))],
+                 quick=dict(cases=3000, maxsize=100), thorough=dict(cases=8000, maxsize=100))],
 )
